@@ -53,7 +53,7 @@ ROLES = [':ARG0', ':instance', ':op1', ':ARG0-of', ':r,s', ':^x', ':^', ':a#', '
 SYM_TARGETS = ['b', 'bark-01', 'b,c', '^', '^x', ',', 'a#', '-', '+', 'x~1', 'e.1', '　z']
 NUM_TARGETS = [7, 0, -1, -1.5, 0.0, 1e-05, 10 ** 20, float('inf')]
 STR_TARGETS = ['"s"', '""', '"a b"', '"a, b"', '"(x)"', '"^"', '" ^ "', '"a\\"b"', '"#"', '"a\tb"', '"r(a, b)"',
-               '"\\\\"', '"a\x0bb\x0c"', '"), ^ x("', '"~:/"', '"日本 語"', '"\x85 "']
+               '"\\\\"', '"a\x0bb\x0c"', '"), ^ x("', '":-)"', '"f(x"', '"))"', '"~:/"', '"日本 語"', '"\x85 "']
 OUTSIDE = [('a,b', ':r', 'c'), ('a', ':', 'b'), ('a', 'r', 'b'), ('a', '::r', 'b'), ('a', ':r', None), ('a', ':r', ''),
            ('#a', ':r', 'b'), ('a', ':#r', 'b'), ('a', ':r', '#b'), ('a', ':r', '"x\ny"'), ('', ':r', 'b'),
            ('a b', ':r', 'c'), ('a', ':r', 'b c'), ('a', ':r', '"unterminated'), (None, ':r', 'b'), ('a', ':r(', 'b')]
@@ -205,6 +205,14 @@ def run(chk):
             chk.stat('has-string-target')
         if len(chk.samples) < 6 and nontrivial and chk.rng.random() < .002:
             chk.sample(dict(case, text=text))
+        # ---- every entry point (module function and PENMANCodec method) must agree -----------
+        if i % 5 == 0 and text is not None:
+            from harness import entrypoints
+            bad = (entrypoints.disagreement(entrypoints.triples_variants(text))
+                   or entrypoints.disagreement(entrypoints.triples_variants(vtext))
+                   or entrypoints.disagreement(entrypoints.format_triples_variants(ts, indent)))
+            if bad:
+                chk.fail('entry-point', 'entry points of the triple notation disagree: ' + bad, dict(case, text=text))
         # ---- oracle on the implementation -------------------------------------------------
         if res != ('ok', want):
             chk.fail('roundtrip', f'parse_triples(format_triples(ts, indent={indent})) = {str(res)[:200]} differs from ts; '
